@@ -182,6 +182,19 @@ def check_compose(case, ctx):
     require(must(hd.traverse, "compose/m", case["m"]).xprv() == hd.xprv(), "compose/identity")
     require(must(hd.pub.traverse, f"compose/public_identity_refuses:{case['m']}", case["m"]).xpub()
             == hd.xpub(), "compose/public_identity")
+    # ... also on keys that are not the root (the empty path is the split point p | "")
+    for key, want, name in ((mid, want_p, "prefix"), (a, want_pq, "leaf")):
+        same_again = must(key.traverse, "compose/m_on_derived_key", case["m"])
+        same_priv(want, same_again, f"compose/identity_on_derived_key:{name}", net)
+        require(same_again.xprv() == key.xprv() and same_again.xpub() == key.xpub(),
+                f"compose/identity_on_derived_key:{name}")
+        pub_again = must(key.pub.traverse, "compose/m_on_derived_public_key", case["m"])
+        same_pub(want.neuter(), pub_again, f"compose/public_identity_on_derived_key:{name}", net)
+        # and what is derived from that result continues at the right depth
+        kid = must(same_again.child, "compose/child_after_identity", q[0])
+        same_priv(want.derive([q[0]]), kid, f"compose/child_after_identity:{name}", net)
+    if p:
+        ctx.label("identity_on_non_root_key")
 
 
 # --------------------------------------------------------------- object reuse
@@ -366,7 +379,7 @@ SUBS = [
         nontrivial_rule="path crossing the hardened boundary or depth >= 3"),
     Sub("path_composition", check_compose, strategy=compose_cases,
         budget={"quick": 260, "thorough": 10000},
-        required=[f"notation:{m}{s}" for m in "mM" for s in "'hH"],
+        required=[f"notation:{m}{s}" for m in "mM" for s in "'hH"] + ["identity_on_non_root_key"],
         nontrivial_rule="path crossing the hardened boundary or depth >= 3"),
     Sub("object_reuse", check_reuse, strategy=reuse_cases, stateful=True,
         budget={"quick": 220, "thorough": 8000}, required=["op:" + o for o in REUSE_OPS] + ["repeated_query"],
